@@ -311,6 +311,26 @@ pub fn run(ctx: &mut Ctx) {
                 texts.push((format!("invalid-char/U+{:04X}", bad.chars().next().unwrap() as u32), sp.text));
             }
         }
+        // characters that text-handling code likes to treat specially (byte-order mark, other line ends, invisible
+        // and replacement characters, control characters), written with nothing around them: as the very first
+        // character of the text, as the very last one, twice in a row, and in the gap after every third lexeme.
+        // Whatever the lexer makes of them, positions are positions in the text as it was given
+        for sp_ch in ["\u{FEFF}", "\u{A0}", "\u{85}", "\u{2028}", "\u{2029}", "\u{200B}", "\u{FFFD}", "\u{B}", "\u{1A}", "\u{7F}", "\u{1}"] {
+            let code = format!("U+{:04X}", sp_ch.chars().next().unwrap() as u32);
+            let base = spell_with(lx, "", "\n", &|_, g| if g == Glue::Blank { " ".into() } else { String::new() }).text;
+            texts.push((format!("special-char-first/{}", code), format!("{}{}", sp_ch, base)));
+            texts.push((format!("special-char-first-twice/{}", code), format!("{}{}{}", sp_ch, sp_ch, base)));
+            texts.push((format!("special-char-first-then-line-end/{}", code), format!("{}\n{}", sp_ch, base)));
+            texts.push((format!("special-char-last/{}", code), format!("{}{}", base, sp_ch)));
+            texts.push((format!("special-char-alone/{}", code), sp_ch.to_string()));
+            for pos in (0..lx.len() - 1).step_by(3) {
+                if gap(&lx[pos], &lx[pos + 1]) == Glue::Hard {
+                    continue;
+                }
+                let sp = spell_with(lx, "", "\n", &|j, g| if j == pos { sp_ch.to_string() } else if g == Glue::Blank { " ".into() } else { String::new() });
+                texts.push((format!("special-char-in-a-gap/{}", code), sp.text));
+            }
+        }
     }
     texts.extend(oscat_docs());
     let tiling_units: Vec<(Vec<(String, String)>, [bool; 3], [String; 3])> = texts
